@@ -118,28 +118,22 @@ func (c *Collection) indexInsert(item *object.Object) {
 	}
 }
 
-const dRNDTOWARDS = (1.0 - 1.0/8388608.0) /* Round towards zero */
-const dRNDAWAY = (1.0 + 1.0/8388608.0)    /* Round away from zero */
-
+// rtreeValueDown returns the largest float32 that is not greater than d and
+// rtreeValueUp the smallest one that is not less than d, so that the float32
+// rectangle of the index always contains the float64 rectangle and never
+// reaches further than one float32 step beyond it (a latitude just short of
+// a pole must not be indexed beyond the pole).
 func rtreeValueDown(d float64) float32 {
 	f := float32(d)
 	if float64(f) > d {
-		if d < 0 {
-			f = float32(d * dRNDAWAY)
-		} else {
-			f = float32(d * dRNDTOWARDS)
-		}
+		f = math.Nextafter32(f, float32(math.Inf(-1)))
 	}
 	return f
 }
 func rtreeValueUp(d float64) float32 {
 	f := float32(d)
 	if float64(f) < d {
-		if d < 0 {
-			f = float32(d * dRNDTOWARDS)
-		} else {
-			f = float32(d * dRNDAWAY)
-		}
+		f = math.Nextafter32(f, float32(math.Inf(1)))
 	}
 	return f
 }
